@@ -23,16 +23,16 @@ HIT = {"CACHE_HIT": "hit", "CACHE_MISS": "miss", "CACHING_DISABLED": "off", "NO_
 ALLMAPS = ["none", "s1s2", "n_s1", "ident", "both"]
 
 
-def consts(group=(), nv=3, maps=("none",), modes=("cached", "nocache"), cap=2, depth=5, faulty="none", kinds=()):
-    return dict(Group={q(n) for n in group}, NV=nv, Maps={q(m) for m in maps}, Modes={q(m) for m in modes}, Cap=cap,
+def consts(group=(), nv=3, maps=("none",), modes=("cached", "nocache"), cap=2, depth=5, faulty="none", kinds=(), lam_none_bind=False, schema_only=False):
+    return dict(LamNoneBind=lam_none_bind, TableSchemaOnly=schema_only, Group={q(n) for n in group}, NV=nv, Maps={q(m) for m in maps}, Modes={q(m) for m in modes}, Cap=cap,
                 MaxDepth=depth, Faulty=q(faulty), TableKinds={q(k) for k in kinds})
 
 
 TABLE_INVS = ["TableBindsAgree", "TableIdsSorted", "TableKeyFine", "TableMapOnlyShifts"]
 
 
-def tlc_table(chk, kinds, nv, maps, workdir, timeout=900):
-    cfg = tlc.cfg(constants=consts(nv=nv, maps=maps, kinds=kinds), init="TableInit", next_="TableNext", invariants=TABLE_INVS)
+def tlc_table(chk, kinds, nv, maps, workdir, timeout=900, lam_none_bind=False, schema_only=False):
+    cfg = tlc.cfg(constants=consts(nv=nv, maps=maps, kinds=kinds, lam_none_bind=lam_none_bind, schema_only=schema_only), init="TableInit", next_="TableNext", invariants=TABLE_INVS)
     r = tlc.run("StmtCache", cfg, workdir, workers=1, timeout=timeout, keep_stdout=False)
     return r
 
@@ -56,7 +56,8 @@ def observe(conn, log, sh, stmt, mname, nocache=False):
     o = dict(out=r["out"], nstmts=len(r["stmts"]))
     if r["out"] != "ok":
         return o
-    st = r["stmts"]
+    st = [x for x in r["stmts"] if x[2] != "RAW"]
+    o["nstmts"] = len(st)
     o["sql"] = st[0][0] if st else None
     o["binds"] = _flat(st[0][1], sh) if st else None
     o["hit"] = HIT.get(st[0][2], st[0][2]) if st else None
@@ -80,7 +81,7 @@ def compare_with_spec(o, f, sh, hit=None, hit2=None):
     if o["nstmts"] != want_n:
         bad.append(("nstmts", "%d cursor executions, spec %d" % (o["nstmts"], want_n)))
         return bad
-    if o["binds"] != list(f["binds"]):
+    if o["binds"] != [None if x == -1 else x for x in f["binds"]]:
         bad.append(("binds", "bound values %r, spec %r" % (o["binds"], f["binds"])))
     ordered = sh["d"] == "limit"
     got = o["ids"] if ordered else sorted(o["ids"])
@@ -190,7 +191,7 @@ class TableChecker:
             if t != o["sql"]:
                 out.append(("schema", "sql", "emitted %r, the construct with translated schema names renders %r" % (o["sql"], t)))
         # mechanism calibration: extracted parameters in traversal order
-        if sh["k"] != "lam":
+        if sh["k"] not in ("lam", "ddl"):
             ck = stmt._generate_cache_key()
             ext = [[(0 if (x is None and sh["k"] == "ins") else x) for x in (bp.value if isinstance(bp.value, list) else [bp.value])]
                    for bp in ck.bindparams]
@@ -210,7 +211,7 @@ class TableChecker:
                     elif same_spec_key and prev[4] != types:
                         out.append(("key", "types", "equal cache keys, different bind types %r vs %r" % (prev[4], types)))
         # literal-rendered string as an independent oracle for the rows
-        if sh["k"] != "orm" and not sc.is_orm(sh):
+        if sh["k"] not in ("orm", "ddl") and not sc.is_orm(sh):
             try:
                 lsql, lrows = sc.run_literal(E.pconn, sh, stmt, sc.MAPS[mname])
                 if sh["k"] in ("sel", "lam") or sh["o"] == "ret":
@@ -218,7 +219,7 @@ class TableChecker:
                         out.append((cat, "literal", "rows with bound parameters %r, rows of the literal rendering %r" % (o["rows"], lrows)))
             except sa.exc.SQLAlchemyError as e:
                 out.append(("calib", "literal", "literal rendering failed: %r" % e))
-        if plain is not None:
+        if plain is not None and not f["dev"]:
             # C17: the equivalent statement built directly from the current closure values
             psh = dict(sh)
             po = observe(E.pconn, E.plog, psh, plain, mname)
@@ -350,7 +351,7 @@ class Driver:
             bad.append(("plain-out", "cache-less engine raised %s" % po["out"]))
         elif o["out"] == "ok" and act["out"] == "ok":
             bad += compare_obs(o, po, "engine with cache (%s) vs cache-less engine" % mode)
-            if plain is not None:
+            if plain is not None and not f["dev"]:
                 pp = observe(E.pconn, E.plog, sh, plain, mname)
                 bad += compare_obs(o, pp, "lambda statement vs plain statement built from the current closure values")
         if bad:
